@@ -31,11 +31,7 @@ class LazyList:
         return gen()
 
     def __bool__(self):
-        try:
-            next(self)
-            return True
-        except StopIteration:
-            return False
+        return self.has_ind(0)
 
     def __call__(self, *args, **kwargs):
         return self
@@ -81,6 +77,9 @@ class LazyList:
                 position.stop,
                 position.step or 1,
             )
+            if step < 0 or (start or 0) < 0 or (stop or 0) < 0:
+                # Positions counted from the end need the whole list
+                return LazyList(self.listify()[position])
             if stop is None:
 
                 @lazylist
@@ -93,18 +92,14 @@ class LazyList:
                 return infinite_index()
             else:
                 ret = []
-                if step < 0:
-                    return LazyList(
-                        itertools.islice(self.listify(), start, stop, step)
-                    )
-                if stop < 0:
-                    stop = len(self) + stop
                 for i in range(start or 0, stop, step):
+                    if not self.has_ind(i):
+                        break
                     ret.append(self[i])
                 return ret
         else:
             if position < 0:
-                self.generated += list(self)
+                self.listify()
                 return self.generated[position]
             elif position < len(self.generated):
                 return self.generated[position]
